@@ -35,7 +35,7 @@ def pushed (n : Native V) (r : List V) : List V :=
 
 def consumes (n : Native V) : Bool :=
   match n.form with
-  | .f00 | .f01 => false
+  | .f00 => false
   | _ => true
 
 /-- **adapter_spec** -/
@@ -160,6 +160,8 @@ theorem vmFunc_error (callee : Nat → Nat → List V → Option (List V)) (xRet
 def swap2 : Native Nat := { form := .fNM, argc := 2, body := fun a => some a.reverse, unpack := fun _ => [] }
 def sumVar : Native Nat := { form := .fVar, argc := 2, body := fun a => some [a.foldl (· + ·) 0, a.length], unpack := fun v => List.replicate v 1 }
 
+-- the value form registered with an arity: the arguments are dropped, the result is delivered (fix b462b86)
+example : callReady ({ form := .f01, argc := 2, body := fun _ => some [99], unpack := fun _ => [] } : Native Nat) 2 1 [7, 1, 2] = some [7, 99] := by decide
 example : callReady swap2 2 2 [7, 8, 1, 2] = some [7, 8, 2, 1] := by decide
 example : callReady swap2 2 1 [7, 8, 1, 2] = some [7, 8, 2] := by decide
 example : callReady swap2 2 3 [7, 8, 1, 2] = none := by decide
